@@ -87,7 +87,7 @@ Definition rb_pack : node_pack :=
   match get_nodes sym rb_w1 RULES_PATH None with Ok p => p | Err _ => mk_pack [] [] end.
 
 Lemma rb_inv : disk_inv sym_eqb SContent rb_w.
-Proof. apply (reach_inv_sym 1 rb_ops); [reflexivity | repeat constructor]. Qed.
+Proof. apply (reach_inv_sym 1 rb_ops); repeat constructor. Qed.
 
 Lemma rb_init : init_dir sym rb_w = Ok (rb_w1, rb_tbl).
 Proof. vm_compute. reflexivity. Qed.
@@ -162,7 +162,7 @@ Proof.
   - intros f g Hf Hg.
     destruct (nr_files f Hf) as [-> | [-> | ->]]; destruct (nr_files g Hg) as [-> | [-> | ->]];
       cbn; intro H; try discriminate; reflexivity.
-  - intros f Hf. destruct (nr_files f Hf) as [-> | [-> | ->]]; split; cbn; reflexivity || (intro H; discriminate).
+  - intros f Hf. destruct (nr_files f Hf) as [-> | [-> | ->]]; cbn; intro H; discriminate.
   - intros c t f Hc Hl. cbn in Hc. injection Hc as <-. cbn in Hl.
     match type of Hl with context [if ?c then _ else _] => destruct c eqn:E end; [|discriminate].
     injection Hl as <-. apply sym_eqb_spec in E. exact E.
@@ -172,7 +172,7 @@ Qed.
 Lemma nr_blob_ok : InvProofs.blob_ok sym sym_eqb SContent nr_w nr_blob.
 Proof.
   intros p st [E | [E | []]]; injection E as <- <-;
-    apply (InvProofs.empty_state_ok sym sym_eqb SContent); apply nr_inv.
+    apply (InvProofs.empty_state_ok sym sym_eqb SContent sym_eqb_spec).
 Qed.
 
 (* the hypotheses of A1 hold of this world ... *)
@@ -312,7 +312,7 @@ Definition rv_wB : world sym := tick (o_world (build_sym (tick (write_file rv_wA
 Definition rv_wC : world sym := tick (write_file rv_wB (bs "s") (f_content rv_f)).
 
 Lemma rv_inv : disk_inv sym_eqb SContent rv_w.
-Proof. apply (reach_inv_sym 1 rv_ops); [reflexivity | repeat constructor]. Qed.
+Proof. apply (reach_inv_sym 1 rv_ops); repeat constructor. Qed.
 
 Lemma rv_facts :
   plan_targets rv_pack = [bs "a"; bs "b"; bs "c"] /\
@@ -395,7 +395,7 @@ Proof. vm_compute. reflexivity. Qed.
 Lemma rb_ok2 : o_verdict (build_sym (tick (write_file rc_wA (bs "s") (bs "2"))) RULES_PATH None) = VOk.
 Proof. vm_compute. reflexivity. Qed.
 Lemma rb_hist_sound : hist_sound sym sym_eqb SContent SList SRule rb_w.
-Proof. apply (reach_hist_sound_partial_sym 1 rb_ops); [reflexivity | cbn; auto]. Qed.
+Proof. apply (reach_hist_sound_partial_sym 1 rb_ops); cbn; auto. Qed.
 
 Theorem revert_recovers_without_distinctness_refuted :
   ~ (forall (w0 : world sym) rp goal w1 tbl pack s f c',
